@@ -199,6 +199,7 @@ def runBatcher : String → String := runBatcherProj projFull
 def api? : Sexp → Option Api
   | .atom "sync" => some .sync
   | .atom "tokio" => some .tokio
+  | .atom "async" => some .async
   | _ => none
 
 def ctx? : Sexp → Option Ctx
@@ -211,6 +212,7 @@ def rxKind? : Sexp → Option RxKind
   | .atom "live" => some .live
   | .atom "stalled" => some .stalled
   | .atom "gone" => some .gone
+  | .atom "hangup" => some .hangup
   | _ => none
 
 def pathName : BlockingPath → String
@@ -225,9 +227,11 @@ def runBlocking (line : String) : String :=
     | some api, some ctx, some rx, some cap, some prefill, some timeout =>
       let cfg := Cfg.real cap
       let path := blockingPath api ctx
-      let rxn := match rx with | .live => "live" | .stalled => "stalled" | .gone => "gone"
+      let rxn := match rx with | .live => "live" | .stalled => "stalled" | .gone => "gone" | .hangup => "hangup"
       let sig := s!"{pathName path},{op},rx={rxn}"
-      if pathPanics path ctx then s!"panic\t{sig}"
+      if (api = .async ∧ ctx ≠ .tokioCurrentThread) ∨ (rx = .hangup ∧ (api ≠ .async ∨ op ≠ "flush")) then "bad-op"
+      else if pathPanics path ctx then s!"panic\t{sig}"
+      else if api = .async ∧ op = "flush" then s!"{asyncFlush cfg rx prefill timeout}\tasync,{op},rx={rxn}"
       else if op = "flush" then
         match blockingFlush cfg rx prefill timeout with
         | some b => s!"{b}\t{sig}"
